@@ -62,6 +62,8 @@ pub enum Op {
     OutUnknownToken { user: u8 },
     /// outbound transfer to a chain name that differs from a trusted one only in letter case / a trailing space
     OutLookalikeChain { user: u8, tok: u8, chain: u8, space: bool },
+    /// approved inbound transfer whose announced amount is above 2^127-1 (hand-encoded): must be refused, not truncated
+    InOutOfRangeAmount { tok: u8, to: u8, origin: u8, low: u8, which: u8 },
     AdvanceDays(u8),
 }
 
@@ -98,6 +100,7 @@ fn op() -> impl Strategy<Value = Op> {
         1 => (0u8..2, 0u8..NU as u8, 1u8..100).prop_map(|(slot, to, amount)| Op::MinterMint { slot, to, amount }),
         1 => (0u8..NU as u8).prop_map(|user| Op::OutUnknownToken { user }),
         1 => (1u8..60).prop_map(Op::AdvanceDays),
+        1 => (0u8..5, 0u8..NU as u8, 0u8..3, 1u8..50, 0u8..4).prop_map(|(tok, to, origin, low, which)| Op::InOutOfRangeAmount { tok, to, origin, low, which }),
         1 => (0u8..NU as u8, 0u8..5, 0u8..3, any::<bool>()).prop_map(|(user, tok, chain, space)| Op::OutLookalikeChain { user, tok, chain, space }),
     ]
 }
@@ -266,6 +269,27 @@ impl Property for C05 {
                             bal[s][to] += *amount as i128;
                             supply[s] += *amount as i128;
                         }
+                    }
+                }
+                Op::InOutOfRangeAmount { tok, to, origin, low, which } => {
+                    let ti = *tok as usize % 5;
+                    if let Some(t) = &toks[ti] {
+                        let mut amount = word_u128(*low as u128);
+                        match which % 4 {
+                            0 => amount = word_u128((1u128 << 127) + *low as u128),
+                            1 => amount[15] |= 1,
+                            2 => amount[7] |= 1,
+                            _ => amount[0] |= 0x80,
+                        }
+                        let inner = AMsg::Transfer { token_id: t.id, source: vec![1], dest: address_xdr(env, &w.users[*to as usize % NU]), amount, data: vec![] };
+                        let payload = ItsWorld::receive_payload(CHAINS[*origin as usize % 3], &inner);
+                        let mid = w.next_message_id();
+                        w.approve_for_its(HUB_CHAIN, &mid, HUB_ADDR, &payload)?;
+                        let snap0 = snapshot(env);
+                        let r = w.execute(HUB_CHAIN, &mid, HUB_ADDR, &payload);
+                        cx.count("must_fail");
+                        ensure_p!(r.is_err(), "step {}: an inbound transfer announcing an amount above 2^127-1 was executed", step);
+                        ensure_p!(snapshot(env) == snap0, "step {}: refused inbound transfer changed the ledger", step);
                     }
                 }
                 Op::OutLookalikeChain { user, tok, chain, space } => {
